@@ -287,7 +287,9 @@ def _s4(program, res):
         guarded = False
         for n in g.stmt_nodes(("test",)):
             t = unparse(n.cond)
-            if "comparison" in t and "nc > 3" in t and "r_op.data" in t:
+            if "comparison" in t and "r_op.data" in t and any(isinstance(c_, ast.Compare) and isinstance(c_.left, ast.Name) and isinstance(c_.ops[0], ast.Gt)
+                                                              and isinstance(c_.comparators[0], ast.Constant) and c_.comparators[0].value == 3
+                                                              for c_ in ast.walk(n.cond)):
                 exits = all(kind in ("return", "raise") for kind in
                             {g.nodes[x].kind for x in g.reachable_from([s for s, l in n.succ if l is True][0], avoid={n.id})
                              if g.nodes[x].kind in ("return", "raise", "falloff")})
